@@ -13,8 +13,8 @@ up to 2^80 and the whole word/shift grid are run through the interpreted
 functions; every call is logged with what it returned and the log is
 validated by TLC against Lib_Trace.tla (all arithmetic in limbs, by TLC).
 """
-import itertools
 import json
+import multiprocessing
 import os
 import random
 import tempfile
@@ -417,6 +417,48 @@ def check_bits(ck, r, seen):
             ck.expect(src, want, "bitwise")
 
 
+class _Collect:
+    """stands in for Run inside a worker process"""
+
+    def __init__(self):
+        self.v = []
+        self.d = []
+
+    def violation(self, key, what, case):
+        self.v.append((key, what, case))
+
+    def drift(self, kind, sample=None):
+        self.d.append((kind, sample))
+
+
+def _worker(job):
+    name, recs = job
+    col = _Collect()
+    ck = Checker(col)
+    fn = globals()[name]
+    for r in recs:
+        fn(ck, r)
+    return col.v, col.d, ck.nchecks
+
+
+def replay_parallel(ck, name, recs, nproc=12):
+    """binding A over many records: split over worker processes (each with
+    its own interpreter); verdicts are merged in record order"""
+    if len(recs) < 200:
+        for r in recs:
+            globals()[name](ck, r)
+        return
+    size = max(1, (len(recs) + nproc * 4 - 1) // (nproc * 4))
+    jobs = [(name, recs[i:i + size]) for i in range(0, len(recs), size)]
+    with multiprocessing.get_context("fork").Pool(nproc) as pool:
+        for v, d, n in pool.map(_worker, jobs):
+            for key, what, case in v:
+                ck.run.violation(key, what, case)
+            for kind, sample in d:
+                ck.run.drift(kind, sample)
+            ck.nchecks += n
+
+
 # ------------------------------------------------------------------ binding B
 def plan_events(rng, n_each):
     """the calls of binding B: (op + arguments) without observations"""
@@ -736,24 +778,26 @@ def run(run):
     ck = Checker(run)
     ncases = 0
     seen = set()
-    handlers = [("PAIR", check_pair), ("FLAT", check_flat), ("RANGE", check_range),
-                ("FUNC", check_func), ("PERM", check_perm), ("NUM", check_num)]
+    handlers = ["PAIR", "FLAT", "RANGE", "FUNC", "PERM", "NUM"]
     nperms = 0
-    for tag, fn in handlers:
+    for tag in handlers:
         recs = res.records(tag)
         if not recs:
             raise MachineryError("TLC exported no " + tag + " cases")
-        for i, r in enumerate(recs):
+        uniq = []
+        for r in recs:
             key = tag + json.dumps(r, sort_keys=True)
             if key in seen:
                 continue
             seen.add(key)
-            if i == len(recs) // 2:
-                run.sample({tag: {k: r[k] for k in list(r)[:6]}})
-            fn(ck, r)
-            ncases += 1
-            if tag == "PERM":
-                nperms += len(r["perms"])
+            uniq.append(r)
+        run.sample({tag: {k: uniq[len(uniq) // 2][k] for k in list(uniq[0])[:6]}})
+        if tag == "PERM":
+            uniq.sort(key=lambda r: -len(r["perms"]))      # long jobs first
+            nperms = sum(len(r["perms"]) for r in uniq)
+        replay_parallel(ck, "check_" + {"FLAT": "flat", "PAIR": "pair", "RANGE": "range", "FUNC": "func",
+                                        "PERM": "perm", "NUM": "num"}[tag], uniq)
+        ncases += len(uniq)
     bseen = set()
     recs = res.records("BITS")
     if not recs:
